@@ -417,6 +417,13 @@ def run_param(case):
                     bad.append("time_dependent")
                 if not (q == p):
                     bad.append("equality")
+                # ... and still after the copy alone has been used elsewhere (other points, other heights)
+                a0 = c16.ARGS[0]
+                q(a0["x"], a0["y"], None if z is None else a0["z"] + 1.5, t=0.1)
+                if not (q == p) or not (p == q):
+                    bad.append("equality-after-use")
+                if not c16.same(q(args["x"], args["y"], z, t=0.7), want):
+                    bad.append("value-after-use")
                 q._clear_cache()
                 if bad:
                     res.violate("parameter-roundtrip-differs", route=route, what=",".join(bad), detail={"tree": tree})
